@@ -2,3 +2,4 @@
 import RactorModel.Extracted
 import RactorModel.Props.C18
 import RactorModel.Props.C01
+import RactorModel.Props.C03
